@@ -51,6 +51,7 @@ def chunk:
      elif (.type|tovalue) == "tEXt" then ["T", (.keyword|hs), (.text|hs)]
      elif (.type|tovalue) == "zTXt" then ["Z", (.keyword|hs), (.compression_method|num), (.uncompressed.text|hs)]
      elif (.type|tovalue) == "PLTE" then ["P", (.palette|length|tostring), ([.palette[] | (.r, .g, .b) | tovalue] | tobytes | hx)]
+     elif (.type|tovalue) == "tRNS" then ["R", (.alpha|num), (.r|num), (.g|num), (.b|num), (.alphas|nn([.[] | tovalue] | tobytes | hx))]
      elif (.type|tovalue) == "pHYs" then ["Y", (.x_pixels_per_unit|num), (.y_pixels_per_unit|num), (.unit|num)]
      else [] end);
 line([(.signature|hb), (.chunks|nn(length|tostring))] + ([.chunks[]? | chunk] | add // []))
